@@ -116,6 +116,7 @@ def run_world(world, tier="quick", timeout=120.0):
         "quiescent": sum(r["sched"]["quiescent"] for r in results),
         "lib_calls": p0["lib_calls"], "flt_calls": p0["flt_calls"],
         "unblocked": sum(r["sched"].get("unblocked", 0) for r in results),
+        "lockwaits": sum(r["sched"].get("lockwaits", 0) for r in results),
         "cells": p0.get("cells", []),
         "raised_in_dispatch": p0.get("raised_in_dispatch", []),
         "variants": p0.get("variants", []),
